@@ -6,7 +6,7 @@
 
 package cmd
 
-//@ pred clientWF() := client != nil && client.Conf != nil && client.Idx != nil && client.Head != nil && client.Refs != nil && client.Ignore != nil && gLogger != nil
+//@ pred clientWF() := client != nil && client.Conf != nil && client.Idx != nil && client.Head != nil && client.Refs != nil && client.Ignore != nil && gLogger != nil && gLogger.rootGoitPath == client.RootGoitPath
 //@     && store.wfIndex(client.Idx) && store.wfRefs(client.Refs) && store.wfConfig(client.Conf) && store.wfIgnore(client.Ignore)
 //@     && (client.Head.Commit != nil ==> client.Head.Commit.Object != nil && len(client.Head.Commit.Tree) >= 20 && len(client.Head.Commit.Hash) >= 20)
 //@     && (client.Head.Commit == nil ==> forall i int :: 0 <= i && i < len(client.Refs.Heads) ==> client.Refs.Heads[i].Name != client.Head.Reference)
@@ -264,6 +264,10 @@ package cmd
 //@   requires index != nil && store.wfIndex(index) && head != nil && conf != nil && refs != nil && store.wfRefs(refs) && gLogger != nil
 //@   requires (head.Commit != nil ==> head.Commit.Object != nil)
 //@   requires (head.Commit == nil ==> forall i int :: 0 <= i && i < len(refs.Heads) ==> refs.Heads[i].Name != head.Reference)
+//@   requires [log-root] gLogger.rootGoitPath == rootGoitPath
+//@   ensures [same-branch] {C02} err == nil ==> head.Reference == old(head.Reference)
+//@   ensures [tip-stored] {C02,C03} err == nil ==> head.Commit != nil && object.commitStored(fs, rootGoitPath, head.Commit.Hash)
+//@   ensures [branch-moved] {C02} err == nil ==> exists k int :: 0 <= k && k < len(refs.Heads) && refs.Heads[k].Name == head.Reference
 
 // callCount(f) is the ghost number of calls made through the function value f: -n bounds the number of commits handed
 // to walkFunc (the exact number, min(n, length of the chain), needs the commit graph and is left to the bounded stand-in)
